@@ -65,13 +65,14 @@ class C27(Prop):
     level_note = ('Partial: the server side is the fake pool + minisql (rollback/commit semantics and what the server does on deadlock, lock wait '
                   'timeout and connection loss are assumptions listed below); PyMySQL error classes come from a shim reproducing 1.1.2 error_map; '
                   'interleaving of concurrent transactions and the behaviour of real aiomysql/MySQL beyond the listed assumptions are outside the claim.')
-    budget = {'quick': 3200, 'thorough': 40000}
+    budget = {'quick': 3600, 'thorough': 40000}
     search_budget = {'quick': 3000, 'thorough': 60000}
     rule = ('case = (initial rows, body of upsert/insert/update/select statements over two tables each issued through its Transaction.execute_* '
             'method with or without a query_name, run inside one @transaction function or as a single Database.execute_* call, fault script per '
             'attempt = statement index x error); every run contains the exhaustive layer {12 fixed bodies: plain, all-instrumented, mixed with reads, '
             'single-statement Database calls} x {every statement index incl. acquire, START TRANSACTION, COMMIT and one past} x {every (class, code) of '
-            'the error list} plus random multi-attempt sequences (half of the faults aimed at body statements, half of the statements instrumented); '
+            'the error list} plus execute_many batches of {1, 2, 999, 1000, 1001, 2500} argument rows (single Database.execute_many calls with a fault at every statement of the 1st, 2nd and 3rd '
+            'transaction the call might open, and inside @transaction bodies) plus random multi-attempt sequences (half of the faults aimed at body statements, half of the statements instrumented); '
             'non-trivial = at least one injected fault fired; distinct by full case')
     trusted = [
         'harness/minisql (MiniDB, SEMANTICS list) as the MySQL server; harness/minisql/fakepool.py as aiomysql',
@@ -175,7 +176,8 @@ end HailVerif.Generated.SqlTimer
     # -- cases -------------------------------------------------------------------------------------
     # case = {'init': {key: value}, 'body': [[kind, key, delta(, named)]...], 'scripts': [None | [statement index, error]...](, 'mode': 'db')}
     #   kind u = upsert through execute_many, i = execute_insertone, w = execute_update, r = SELECT through execute_and_fetchone,
-    #   a = SELECT through execute_and_fetchall; named = 1: the statement is issued with query_name=... (metrics-instrumented path)
+    #   a = SELECT through execute_and_fetchall; named = 1: the statement is issued with query_name=... (metrics-instrumented path);
+    #   [m, key, delta, named, n] = execute_many of the upsert with n argument rows (key + j % 2, delta), j < n (one multi-row INSERT)
     #   mode 'tx' (default): the body runs inside one @transaction function; mode 'db': the body is ONE statement issued through the
     #   retry-wrapped single-statement method Database.execute_many / execute_insertone / execute_update / execute_and_fetchone
     FIXED = [
@@ -194,6 +196,9 @@ end HailVerif.Generated.SqlTimer
         {'init': {'1': 5}, 'body': [['r', 1, 0, 1]], 'mode': 'db'},
         {'init': {'1': 5}, 'body': [['i', 2, 7]], 'mode': 'db'},
     ]
+    # batch sizes of Database.execute_many / Transaction.execute_many: around every plausible slice size of a client that splits batches
+    MANY_SIZES = [1, 2, 999, 1000, 1001, 2500]
+    MANY_ERRS = ['op:1213', 'op:2013', 'integ:1062', 'op:1054']
 
     def exhaustive(self):
         for fx in self.FIXED:
@@ -201,9 +206,23 @@ end HailVerif.Generated.SqlTimer
             for idx in range(0, n + N_PRE + 2):
                 for err in ERRS:
                     yield {**fx, 'scripts': [[idx, err]]}
+        for i, size in enumerate(self.MANY_SIZES):
+            fx = {'init': {'1': 5}, 'body': [['m', 1, 2, i % 2, size]], 'mode': 'db'}
+            yield {**fx, 'scripts': []}
+            for idx in range(0, N_PRE + 2):
+                for err in self.MANY_ERRS:
+                    yield {**fx, 'scripts': [[idx, err]]}
+                    if size > 1000:
+                        # a fault in the 2nd / 3rd transaction the call opens, should it open more than one without a failure
+                        yield {**fx, 'scripts': [None, [idx, err]]}
+                        yield {**fx, 'scripts': [None, None, [idx, err]]}
+            yield {'init': {'100': 1}, 'body': [['w', 100, 1], ['m', 100, 1, 1 - i % 2, size], ['r', 101, 0]], 'scripts': [[N_PRE + 1, 'op:1205'], [N_PRE + 3, 'op:1040']]}
 
     def random_stmt(self, rng, db_mode=False):
-        kind = rng.choice(['u', 'u', 'w', 'w', 'i', 'r'] if db_mode else ['u', 'u', 'w', 'w', 'i', 'r', 'a'])
+        kind = rng.choice(['u', 'u', 'w', 'w', 'i', 'r', 'm', 'm'] if db_mode else ['u', 'u', 'w', 'w', 'i', 'r', 'a', 'm'])
+        if kind == 'm':
+            size = rng.choice(self.MANY_SIZES) if rng.random() < 0.12 else rng.randint(1, 6)
+            return ['m', rng.choice([1, 3, 100, 102]), rng.randint(-9, 9), int(rng.random() < 0.5), size]
         st = [kind, rng.choice([1, 2, 3, 4, 100, 101, 102, 103]), 0 if kind in 'ra' else rng.randint(-9, 9)]
         # Database.execute_insertone takes no query_name
         if rng.random() < 0.5 and not (db_mode and kind == 'i'):
@@ -247,7 +266,8 @@ end HailVerif.Generated.SqlTimer
     # -- model -------------------------------------------------------------------------------------
     def model_lines(self, c):
         init = ' '.join(f'{k}={v}' for k, v in sorted(c['init'].items(), key=lambda kv: int(kv[0])))
-        body = ' '.join(['n'] * N_PRE + [f'{st[0]}:{st[1]}:{st[2]}' + (':q' if len(st) > 3 and st[3] else '') for st in c['body']])
+        body = ' '.join(['n'] * N_PRE + [f'{st[0]}:{st[1]}:{st[2]}' + (f':{st[4]}' if st[0] == 'm' else '') + (':q' if len(st) > 3 and st[3] else '')
+                                         for st in c['body']])
         scripts = ' '.join('-' if s is None else f'{s[0]}:{s[1]}' for s in c['scripts'])
         return [f'{init} | {body} | {scripts}']
 
@@ -260,9 +280,15 @@ end HailVerif.Generated.SqlTimer
         for k, v in c['init'].items():
             db.load_rows(table_of(int(k)), [{'k': int(k), 'v': v}])
         scripts = c['scripts']
-        state = {'attempt': 0, 'idx': 0, 'fired': []}
+        state = {'attempt': 0, 'idx': 0, 'fired': [], 'commits': 0}
 
         def hook(i, sql):
+            exc = hook1(i, sql)
+            if sql == 'COMMIT' and exc is None:
+                state['commits'] += 1       # this COMMIT reaches the server
+            return exc
+
+        def hook1(i, sql):
             if sql == 'ROLLBACK':
                 return None      # the client's rollback after a failed attempt is not a fault position
             if sql == '<acquire>':
@@ -287,6 +313,9 @@ end HailVerif.Generated.SqlTimer
             t = table_of(k)
             if kind == 'u':
                 return 'execute_many', f'INSERT INTO {t} (k, v) VALUES (%s, %s) ON DUPLICATE KEY UPDATE v = v + VALUES(v)', [(k, d)], qn
+            if kind == 'm':
+                return ('execute_many', f'INSERT INTO {t} (k, v) VALUES (%s, %s) ON DUPLICATE KEY UPDATE v = v + VALUES(v)',
+                        [(k + j % 2, d) for j in range(st[4])], qn)
             if kind == 'i':
                 return 'execute_insertone', f'INSERT INTO {t} (k, v) VALUES (%s, %s)', (k, d), qn
             if kind == 'w':
@@ -353,6 +382,7 @@ end HailVerif.Generated.SqlTimer
             asyncio.set_event_loop(None)
             loop.close()
         out['attempts'] = state['attempt']
+        out['commits'] = state['commits']
         out['fired'] = state['fired']
         rows = {}
         for t in ('ta', 'tb'):
@@ -376,6 +406,9 @@ end HailVerif.Generated.SqlTimer
             kind, k, x = st[0], st[1], st[2]
             if kind == 'u':
                 d[k] = d.get(k, 0) + x
+            elif kind == 'm':
+                for j in range(st[4]):
+                    d[k + j % 2] = d.get(k + j % 2, 0) + x
             elif kind == 'i':
                 if k in d:
                     return None, 'integ:1062'
@@ -394,6 +427,13 @@ end HailVerif.Generated.SqlTimer
         init = {int(k): v for k, v in c['init'].items()}
         fired = {a: (idx, err) for a, idx, err in o['fired']}
         n = o['attempts']
+        # one logical operation = one transaction: whatever was retried, exactly one COMMIT reaches the server when the call returns and
+        # none when it raises (a second committed transaction makes the writes of the first visible and durable on their own)
+        want_commits = 1 if o['result'] == 'ok' else 0
+        if o['commits'] != want_commits:
+            return (f'the operation {"returned" if o["result"] == "ok" else "raised " + o["result"]} after committing {o["commits"]} transactions '
+                    f'(connections taken: {n}, faults fired: {o["fired"]}); a transactional operation commits once as a whole or not at all; '
+                    f'tables afterwards {o["db"] if len(o["db"]) < 8 else "..."}')
         # retried <=> transient
         for a in range(1, n):
             if a not in fired:
@@ -444,6 +484,9 @@ end HailVerif.Generated.SqlTimer
                 tags.append('fault@body:' + ('query_name' if len(st) > 3 and st[3] else 'plain') + ':' + st[0])
         if any(len(st) > 3 and st[3] for st in c['body']):
             tags.append('has-query_name')
+        for st in c['body']:
+            if st[0] == 'm':
+                tags.append('execute_many rows=' + ('1' if st[4] == 1 else '2-6' if st[4] <= 6 else str(st[4])))
         nontrivial = any(s is not None and s[0] <= len(c['body']) + N_PRE for s in c['scripts'])
         return (json.dumps(c, sort_keys=True) if nontrivial else None, tags)
 
@@ -457,8 +500,8 @@ end HailVerif.Generated.SqlTimer
             cur['scripts'] = generic_shrink_list(cur['scripts'], lambda s: fails({**cur, 'scripts': s}))
             cur['body'] = generic_shrink_list(cur['body'], lambda b: fails({**cur, 'body': b})) if len(cur['body']) > 1 else cur['body']
             for i, st in enumerate(cur['body']):     # drop query_name flags that do not matter
-                if len(st) > 3:
-                    trial = {**cur, 'body': cur['body'][:i] + [st[:3]] + cur['body'][i + 1:]}
+                if len(st) > 3 and st[3]:
+                    trial = {**cur, 'body': cur['body'][:i] + [st[:3] + ([0] + st[4:] if len(st) > 4 else [])] + cur['body'][i + 1:]}
                     if fails(trial):
                         cur = trial
             for k in list(cur['init']):
